@@ -9,11 +9,12 @@ import itertools
 PROPERTY = "C11"
 LEVEL = "exploration"
 SHARDS = {"quick": 4, "thorough": 16}
-REQUIRED = ["ws-automaton", "call-model", "frame-accounting", "state-monotone", "denial-response"]
+REQUIRED = ["ws-automaton", "call-model", "frame-accounting", "state-monotone", "denial-response", "overlapped-pairs"]
 RULE = ("Exhaustive call sequences over 15 wrapper operations (accept, accept(subprotocol), receive, receive_text, receive_bytes, one step of "
         "iter_text / iter_bytes, send_text, send_bytes, close, close(code), raw send of accept / send / close / foreign type) of length <=4 "
         "(thorough <=5) x every server script (connect; 0-3 frames text/bytes/both-keys; disconnect at every position or never), plus "
-        "length 5 (thorough 6) over a sample of scripts. Non-trivial = sequence containing an accept or close and >=2 calls; distinct by construction.")
+        "length 5 (thorough 6) over a sample of scripts; plus every sequence of length <=3 (thorough 4) with each adjacent pair overlapped (call i suspended inside "
+        "the server's send() while call i+1 runs to completion - two tasks sharing the socket). Non-trivial = sequence containing an accept or close and >=2 calls; distinct by construction.")
 ASSUMPTIONS = [
     "a typed receive that meets a frame of the other type (or the connect event) has an unspecified outcome (KeyError/None tolerated); the event counts as consumed",
     "a call that would wait for a server event that never comes ends the scenario (the coroutine is suspended, nothing is judged after it)",
@@ -69,7 +70,9 @@ def step(coro):
     return "blocked", y
 
 
-def run_scenario(ctx, calls, script_tag, events):
+def run_scenario(ctx, calls, script_tag, events, overlap=None):
+    """overlap = i: calls[i] is suspended inside the server's send() while calls[i+1] runs to completion, then resumed.
+    The wrapper updates its state before awaiting the server, so the model is the sequential one for [.., c_i, c_i+1, ..]."""
     from baize.asgi import WebSocket, WebSocketDisconnect
     served = [{"type": "websocket.connect"}] + [dict(e) for e in events]
     cursor = [0]
@@ -88,8 +91,16 @@ def run_scenario(ctx, calls, script_tag, events):
             disconnect_delivered[0] = True
         return dict(m)
 
+    suspend_next_send = [False]
+    in_send = [False]
+
     async def send(m):
         forwarded.append(m)
+        if suspend_next_send[0]:
+            suspend_next_send[0] = False
+            in_send[0] = True
+            await Never()  # the server's send() is slow: another task may use the socket meanwhile
+            in_send[0] = False
 
     ws = WebSocket({"type": "websocket", "headers": [], "path": "/", "query_string": b""}, receive, send)
     # model state
@@ -97,14 +108,13 @@ def run_scenario(ctx, calls, script_tag, events):
     gens = {}
     returned_frames = []      # payloads handed to the application, in order
     consumed_frames = []      # data frames taken from the server, in order
-    case = {"calls": list(calls), "script": [e.get("type", "")[10:] + ("/" + ("text" if e.get("text") is not None else "bytes") if "receive" in e.get("type", "") else "") for e in events], "disconnect": script_tag}
+    case = {"calls": list(calls), "overlap_at": overlap, "script": [e.get("type", "")[10:] + ("/" + ("text" if e.get("text") is not None else "bytes") if "receive" in e.get("type", "") else "") for e in events], "disconnect": script_tag}
     prev_states = (0, 0)
 
     def V(key, detail=""):
         ctx.violation(key, case, detail)
 
-    for idx, call in enumerate(calls):
-        fw0, cur0 = len(forwarded), cursor[0]
+    def make(call, idx):
         if call == "accept":
             coro = ws.accept()
         elif call == "accept_sub":
@@ -135,16 +145,72 @@ def run_scenario(ctx, calls, script_tag, events):
             coro = ws.send({"type": "websocket.close", "code": 1001})
         elif call == "raw_bogus":
             coro = ws.send({"type": "websocket.bogus"})
-        kind, val = step(coro)
-        new_fw = forwarded[fw0:]
-        took = served[cur0:cursor[0]]
+        return coro
+
+    def step_partial(coro):
+        """like step(), but a suspension inside the server's send() is reported, not closed"""
+        try:
+            coro.send(None)
+        except StopIteration as e:
+            return "ret", e.value
+        except StopAsyncIteration:
+            return "stop", None
+        except BaseException as e:  # noqa
+            return "exc", e
+        return "suspended", coro
+
+    def finished(call, kind):
+        if call in gens and kind in ("exc", "stop"):
+            gens.pop(call)  # an async generator that raised or stopped is finished; a later step starts a new one
+
+    plan = []  # (idx, call, kind, val, new_fw, took, overlapped, states after)
+    i = 0
+    while i < len(calls):
+        call = calls[i]
+        fw0, cur0 = len(forwarded), cursor[0]
+        if overlap == i and i + 1 < len(calls):
+            suspend_next_send[0] = True
+            k1, v1 = step_partial(make(call, i))
+            finished(call, k1)
+            suspend_next_send[0] = False
+            fw_mid, cur_mid = len(forwarded), cursor[0]
+            if k1 == "suspended" and not in_send[0]:
+                v1.close()  # it waits for a server event that never comes, not for send()
+                k1, v1 = "blocked", None
+            if k1 == "suspended":
+                ctx.count("overlapped-pairs-executed")
+                k2, v2 = step(make(calls[i + 1], i + 1))
+                finished(calls[i + 1], k2)
+                fw_end, cur_end = len(forwarded), cursor[0]
+                pend = v1
+                k1, v1 = step(pend) if k2 != "blocked" else ("ret", None)
+                if k2 == "blocked":
+                    pend.close()
+                st = (ws.client_state.name, ws.application_state.name)
+                plan.append((i, call, k1, v1, forwarded[fw0:fw_mid] + forwarded[fw_end:], served[cur0:cur_mid] + served[cur_end:cursor[0]], True, st))
+                plan.append((i + 1, calls[i + 1], k2, v2, forwarded[fw_mid:fw_end], served[cur_mid:cur_end], False, st))
+                i += 2
+                if k2 == "blocked":
+                    break
+                continue
+            plan.append((i, call, k1, v1, forwarded[fw0:], served[cur0:cursor[0]], False, (ws.client_state.name, ws.application_state.name)))
+            i += 1
+            if k1 == "blocked":
+                break
+            continue
+        kind, val = step(make(call, i))
+        finished(call, kind)
+        plan.append((i, call, kind, val, forwarded[fw0:], served[cur0:cursor[0]], False, (ws.client_state.name, ws.application_state.name)))
+        i += 1
+        if kind == "blocked":
+            break
+
+    for idx, call, kind, val, new_fw, took, overlapped, st_after in plan:
         ctx.mon("call-model")
         if kind == "blocked":
             ctx.count("scenario-ended-blocked")
             break
         raised = kind == "exc"
-        if call in gens and kind in ("exc", "stop"):
-            gens.pop(call)  # an async generator that raised or stopped is finished; a later step starts a new one
         # ------------------------------------------------ sends
         if call in ("send_text", "send_bytes", "raw_accept", "raw_send", "raw_close", "raw_bogus", "close", "close_code",
                     "accept", "accept_sub"):
@@ -246,12 +312,14 @@ def run_scenario(ctx, calls, script_tag, events):
                         returned_frames.append(e)  # consumed; outcome unspecified
         # ------------------------------------------------ states
         ctx.mon("state-monotone")
-        rs = (ORDER[ws.client_state.name], ORDER[ws.application_state.name])
+        rs = (ORDER[st_after[0]], ORDER[st_after[1]])
         if rs[0] < prev_states[0] or rs[1] < prev_states[1]:
             V("state-moved-backwards", f"{prev_states} -> {rs}")
-        if rs != (ORDER[c], ORDER[a]):
-            V("reported-state-differs-from-model", f"real client={ws.client_state.name} app={ws.application_state.name}; model {c} {a}; after {call}")
-            c, a = ws.client_state.name, ws.application_state.name  # resynchronise
+        if overlapped:
+            pass  # first call of an overlapped pair: the partner has already run; the pair's final state is compared at the partner
+        elif rs != (ORDER[c], ORDER[a]):
+            V("reported-state-differs-from-model", f"real client={st_after[0]} app={st_after[1]}; model {c} {a}; after {call}")
+            c, a = st_after  # resynchronise
         prev_states = rs
     for g in gens.values():
         try:
@@ -345,6 +413,21 @@ def run(ctx):
                 run_scenario(ctx, calls, tag, events)
                 ctx.case_enum(nt)
     ctx.sample("exhaustive", {"calls": calls, "script": [e["type"] for e in events]})
+    # overlapped pairs: call i is suspended inside the server's send() while call i+1 runs (two tasks sharing the socket)
+    omax = 3 if ctx.quick else 4
+    for n in range(2, omax + 1):
+        for calls in itertools.product(CALLS, repeat=n):
+            idx += 1
+            if not ctx.mine(idx):
+                continue
+            for ov in range(n - 1):
+                if calls[ov].startswith(("receive", "iter")):
+                    continue  # only calls that reach the server's send() can be suspended there
+                for tag, events in SCRIPTS[::3]:
+                    run_scenario(ctx, calls, tag, events, overlap=ov)
+                    ctx.mon("overlapped-pairs")
+                    ctx.case_enum(True)
+    ctx.sample("overlapped", {"calls": ["accept", "close", "send_text"], "overlap_at": 1, "script": ["websocket.receive"]})
     ctx.exhaustive = True
     ctx.extra["exhaustive_bound"] = f"all call sequences of length <= {full} over {len(CALLS)} operations x {len(SCRIPTS)} server scripts"
     # one more level over a sample of scripts
@@ -373,7 +456,7 @@ def replay(ctx, case):
     for tag, events in SCRIPTS:
         sig = [e.get("type", "")[10:] + ("/" + ("text" if e.get("text") is not None else "bytes") if "receive" in e.get("type", "") else "") for e in events]
         if sig == case["script"] and str(tag) == str(case["disconnect"]):
-            run_scenario(ctx, case["calls"], tag, events)
+            run_scenario(ctx, case["calls"], tag, events, overlap=case.get("overlap_at"))
             ctx.case(1)
             return
     print("script not found")
